@@ -265,6 +265,22 @@ def run(ctx):
         h.stage = 'mapping'
         histories.append(h)
 
+    # H4b mapping: the worker started FIRST fails at once while the workers started after it are held at a gate until
+    # the run has ended: when the call has returned no worker of it is alive any more
+    h = History(ctx, 'mapping_fail_first_worker_others_held')
+    a, outs, ins = stage_spec('mapping', h.dir, 'a')
+    a['config']['type_assignment']['n_processors'] = 3
+    plan = {'rules': [{'point': 'map.before', 'match': {'r0': 0}, 'fault': 'raise'},
+                      {'point': 'map.before', 'match': {'r0': 3}, 'wait_for': ['run_ended'], 'timeout': 25},
+                      {'point': 'map.before', 'match': {'r0': 6}, 'wait_for': ['run_ended'], 'timeout': 25}]}
+    pp = h.dir / 'plan.json'
+    json.dump(plan, open(pp, 'w'))
+    h.add('mapping', a, h.dir / 'scratch', outs, ins, outdirs=[h.dir / 'out'], plan=str(pp), expect_fail=True,
+          end_token='run_ended')
+    h.kind = 'failure'
+    h.stage = 'mapping'
+    h.no_orphans = True
+    histories.append(h)
     # H5 mapping: failure while writing the outputs (HDF5 path in a directory that does not exist)
     h = History(ctx, 'mapping_fail_output')
     a, outs, ins = stage_spec('mapping', h.dir, 'a')
@@ -322,6 +338,10 @@ def run(ctx):
             if info['expect_fail']:
                 if o['ok']:
                     raise MachineryError(f'history {h.name}: injected failure did not fail the run')
+                if getattr(h, 'no_orphans', False) and o.get('live_children', 0) > 0:
+                    ctx.report('mapping:error-path:orphan-activity', f'{CL[1901]}: the failed run has returned and '
+                               f'{o["live_children"]} of its worker processes are still alive (history {h.name})',
+                               {'history': h.name})
             elif not o['ok']:
                 ctx.report(f'{h.stage}:{h.kind}:run-failed', f'stage {h.stage} failed in history {h.kind}: '
                            f'{o["error"]}', {'history': h.name})
